@@ -74,8 +74,14 @@ def _world():
     sc = G.scenario()
     sc.add_objects(G.lanelet(1, x0=PROBE, y0=0.0, length=2.0))
     sc.add_objects(G.static_obstacle(5, 1.0, 0.5))
-    goal = GoalRegion([CustomState(time_step=Interval(1, 5), position=G.rect(1.0, 1.0, (1.5, 0.5)))])
-    pps = PlanningProblemSet([PlanningProblem(9, G.init_state(0.5, 0.5), goal)])
+    # probe numbers with 12 decimals in every kind of place a number is written: polyline points, exact state values
+    # (position, orientation, velocity), interval bounds, shape parameters
+    sc.add_objects(G.dynamic_obstacle(6, 1.0 + PROBE, 0.5, shape=G.rect(2.0 + PROBE, 1.0 + PROBE),
+                                      poses=[(2.0 + PROBE, 0.5, PROBE), (3.0 + PROBE, 0.5 + PROBE, -PROBE)]))
+    sc.obstacle_by_id(6).initial_state.velocity = 12.0 + PROBE
+    goal = GoalRegion([CustomState(time_step=Interval(1, 5), position=G.rect(1.0, 1.0, (1.5, 0.5)),
+                                   velocity=Interval(1.0 + PROBE, 2.0 + PROBE))])
+    pps = PlanningProblemSet([PlanningProblem(9, G.init_state(0.5 + PROBE, 0.5, PROBE, v=3.0 + PROBE), goal)])
     return sc, pps
 
 
@@ -85,14 +91,21 @@ def _project(path, d_expected):
     from commonroad.common.util import FileFormat
     with open(path, "rb") as f:
         raw = f.read()
-    out = {"fmt": "xml" if raw.lstrip().startswith(b"<?xml") else "pb", "copies": 0, "pp": 0, "digits": 0, "readback": 0}
+    out = {"fmt": "xml" if raw.lstrip().startswith(b"<?xml") else "pb", "copies": 0, "pp": 0, "digits": [], "nprobes": 0,
+           "readback": 0}
     if out["fmt"] == "xml":
         from lxml import etree
         root = etree.fromstring(raw)
         out["copies"] = sum(1 for e in root.findall("lanelet") if e.get("id") == "1")
         out["pp"] = len(root.findall("planningProblem"))
-        xs = root.find("lanelet").find("rightBound").find("point").find("x").text
-        out["digits"] = len(xs.split(".")[1]) if "." in xs else 0
+        # decimal places of every written probe number (all numbers whose fraction starts with the probe digits)
+        # (shape parameters are written with str(), i.e. always in full: not a function of any writer's precision)
+        probes = [t.text.strip() for t in root.iter() if t.text and re.fullmatch(r"-?\d+\.1\d*", t.text.strip())
+                  and (t.getparent() is None or t.getparent().tag not in ("rectangle", "circle"))]
+        probes += [v for t in root.iter() for v in t.attrib.values() if re.fullmatch(r"-?\d+\.12\d*", v)]
+        places = sorted({len(x.split(".")[1]) for x in probes})
+        out["digits"] = places
+        out["nprobes"] = len(probes)
         stripped = re.sub(rb'date="[^"]*"', b'date=""', raw)
         ff = FileFormat.XML
     else:
@@ -108,9 +121,13 @@ def _project(path, d_expected):
     try:
         sc2, pps2 = CommonRoadFileReader(path, file_format=ff).open()
         las = sc2.lanelet_network.lanelets
-        tol = 10.0 ** (-out["digits"]) if out["fmt"] == "xml" else 1e-12
-        ok = len(las) == 1 and len(sc2.obstacles) == 1 and abs(float(las[0].right_vertices[0][0]) - PROBE) < tol \
-            and len(pps2.planning_problem_dict) == out["pp"]
+        tol = 10.0 ** (-d_expected) if out["fmt"] == "xml" else 1e-12
+        o6 = sc2.obstacle_by_id(6)
+        ok = len(las) == 1 and len(sc2.obstacles) == 2 and abs(float(las[0].right_vertices[0][0]) - PROBE) < tol \
+            and len(pps2.planning_problem_dict) == out["pp"] and o6 is not None \
+            and abs(o6.initial_state.velocity - (12.0 + PROBE)) < tol and abs(o6.initial_state.orientation) < tol \
+            and abs(o6.prediction.trajectory.state_list[1].orientation + PROBE) < tol \
+            and abs(o6.obstacle_shape.length - (2.0 + PROBE)) < max(tol, 1e-12)
         out["readback"] = 1 if ok else 0
     except Exception:
         out["readback"] = 0
@@ -154,7 +171,7 @@ def execute(case):
                     wr.write_scenario_to_file(path, mode)
             except Exception as ex:
                 exc = "exc:" + type(ex).__name__
-            proj = {"fmt": "none", "copies": 0, "pp": 0, "digits": 0, "readback": 0}
+            proj = {"fmt": "none", "copies": 0, "pp": 0, "digits": [], "nprobes": 0, "readback": 0}
             cid = 0
             if os.path.exists(path):
                 proj, h = _project(path, dd)
